@@ -598,10 +598,17 @@ def maxSheetId : List SheetEnt → Int → Int
 
 def insertSet (xs : List Str) (x : Str) : List Str := if xs.contains x then xs else xs ++ [x]
 
+/-- the loop of `NewSheet` that skips the ids whose worksheet part exists (`fuel`: at most one
+collision per existing part) -/
+def freshSheetId (parts : List Str) : Nat → Int → Int
+  | 0, k => k
+  | fuel + 1, k =>
+    if parts.contains (worksheetPath (sheetPartAbs k)) then freshSheetId parts fuel (wrap64 (k + 1)) else k
+
 /-- sheet.go `NewSheet` for a name that passes `checkSheetName` -/
 def newSheet (b : Book) (name : Str) : Book :=
   if b.sheets.any (fun s => eqFold s.name name) then b else
-  let sheetID := wrap64 (maxSheetId b.sheets 0 + 1)
+  let sheetID := freshSheetId b.wsParts (b.wsParts.length + 1) (wrap64 (maxSheetId b.sheets 0 + 1))
   let ct := setContentTypes b.ct (sheetPartAbs sheetID) ctWorksheet
   let (rels, rID) := addRels b.wbRels relWorksheet (sheetPartAbs sheetID) []
   { ct := ct, wbRels := rels,
